@@ -30,6 +30,7 @@ const (
 	SiteCtxMade                // a context was created by the task (carries cancel func)
 	SiteHostCall               // a simulator host function was invoked by the script
 	SiteTaskDone               // task has no more ops
+	SiteYield                  // a host object's method lets the scheduler in (inside a builtin call)
 )
 
 func SiteName(s int) string {
@@ -72,6 +73,8 @@ func SiteName(s int) string {
 		return "HostCall"
 	case SiteTaskDone:
 		return "TaskDone"
+	case SiteYield:
+		return "Yield"
 	}
 	return "site" + strconv.Itoa(s)
 }
@@ -91,22 +94,22 @@ func (unwindSentinel) Error() string { return "verif: episode unwound" }
 // arrival is the one message type from simulated threads to the controller.
 // It is sent by value; the controller never dereferences c or v.
 type arrival struct {
-	gid    uint64
-	site   int
-	c      *tengo.Compiled
-	v      *tengo.VM
-	task   int
-	opIdx  int
-	ip     int
-	sp     int
-	frames int
-	op     byte
-	name   string // host function name (allocated by the controller at script build time)
-	ctxIdx int
-	cancel context.CancelFunc
-	now    time.Duration
+	gid      uint64
+	site     int
+	c        *tengo.Compiled
+	v        *tengo.VM
+	task     int
+	opIdx    int
+	ip       int
+	sp       int
+	frames   int
+	op       byte
+	name     string // host function name (allocated by the controller at script build time)
+	ctxIdx   int
+	cancel   context.CancelFunc
+	now      time.Duration
 	lockFree bool // lock sites: result of the TryLock probe made by the arriving thread itself
-	reply  chan reply
+	reply    chan reply
 }
 
 type reply struct {
@@ -135,9 +138,9 @@ type thread struct {
 	curOp  int
 	doneCh chan struct{}
 	// host call in progress: behaviour decided at arrival, thread held until wakeAt
-	wakeAt  time.Duration
-	hostRep hostBehaviour
-	lockStamp int // decision at which the current op passed its first lock site
+	wakeAt    time.Duration
+	hostRep   hostBehaviour
+	lockStamp int  // decision at which the current op passed its first lock site
 	lockFree  bool // lock site: last probe result
 	stale     bool // lock site: some lock may have changed hands since the probe
 	// stall
@@ -147,30 +150,30 @@ type thread struct {
 
 // RunInfo records what the controller observed about one Run/RunContext call.
 type RunInfo struct {
-	Task, OpIdx, RunIdx int
-	CtxIdx              int // index into plan.Ctxs, -1 = background
-	Steps               int // VM instructions released
-	HostCalls           int
-	Cancelled           bool
-	CancelDecision      int
-	CancelAtSteps       int
-	CancelWhere         string // what the threads were doing when cancellation took effect
-	StepsAfterCancelFair int   // VM steps after cancellation while the caller was not being stalled
-	VMSpawned           bool
-	VMExited            bool
-	VMPanicked          bool
-	ChFilled            bool // VM thread released past VMRunExit (its result is in the channel)
-	CallerPastSelect    bool
-	SawCancelBranch     bool
-	Returned            bool
-	StepsAfterReturn    int
-	HostBlockedAtCancel bool
-	InjectedPanic       bool
-	vm                  *tengo.VM
-	vmThread            *thread
-	caller              *thread
-	ctx                 *ctxState
-	hostCallIdx         int
+	Task, OpIdx, RunIdx  int
+	CtxIdx               int // index into plan.Ctxs, -1 = background
+	Steps                int // VM instructions released
+	HostCalls            int
+	Cancelled            bool
+	CancelDecision       int
+	CancelAtSteps        int
+	CancelWhere          string // what the threads were doing when cancellation took effect
+	StepsAfterCancelFair int    // VM steps after cancellation while the caller was not being stalled
+	VMSpawned            bool
+	VMExited             bool
+	VMPanicked           bool
+	ChFilled             bool // VM thread released past VMRunExit (its result is in the channel)
+	CallerPastSelect     bool
+	SawCancelBranch      bool
+	Returned             bool
+	StepsAfterReturn     int
+	HostBlockedAtCancel  bool
+	InjectedPanic        bool
+	vm                   *tengo.VM
+	vmThread             *thread
+	caller               *thread
+	ctx                  *ctxState
+	hostCallIdx          int
 }
 
 type ctxState struct {
@@ -193,20 +196,20 @@ type Violation struct {
 
 // Stats are the per-episode counters that end up in the evidence file.
 type Stats struct {
-	Decisions int              `json:"decisions"`
-	Switches  int              `json:"switches"`
-	VMSteps   int              `json:"vmSteps"`
-	SimNs     int64            `json:"simNs"`
-	Fired     map[string]int   `json:"fired,omitempty"`  // fault kinds that actually fired
-	Probes    map[string]int   `json:"probes,omitempty"` // rare-condition probes
-	SwitchSig uint64           `json:"switchSig"`        // hash of (thread,site) at context switches
-	StateSigs []uint64         `json:"stateSigs,omitempty"`
-	Threads   int              `json:"threads"`
+	Decisions int            `json:"decisions"`
+	Switches  int            `json:"switches"`
+	VMSteps   int            `json:"vmSteps"`
+	SimNs     int64          `json:"simNs"`
+	Fired     map[string]int `json:"fired,omitempty"`  // fault kinds that actually fired
+	Probes    map[string]int `json:"probes,omitempty"` // rare-condition probes
+	SwitchSig uint64         `json:"switchSig"`        // hash of (thread,site) at context switches
+	StateSigs []uint64       `json:"stateSigs,omitempty"`
+	Threads   int            `json:"threads"`
 }
 
 type Engine struct {
-	Plan   *plan.Plan
-	Objs   []*tengo.Compiled
+	Plan    *plan.Plan
+	Objs    []*tengo.Compiled
 	Scripts []*tengo.Script
 
 	active atomic.Bool
@@ -220,13 +223,13 @@ type Engine struct {
 	runs     []*RunInfo
 	runCount []int // per task
 
-	now        time.Duration
-	decisions  int
-	last       *thread
-	stay       uint32
-	tapePos    int
+	now         time.Duration
+	decisions   int
+	last        *thread
+	stay        uint32
+	tapePos     int
 	pendingTick bool
-	unwinding  bool
+	unwinding   bool
 
 	Results    [][]*OpResult
 	Violations []Violation
@@ -245,11 +248,11 @@ type Engine struct {
 
 	solo    soloEnv
 	preCtx  map[int]*preCtxEntry // race build: contexts created by the controller before the threads exist
-	stuck   bool // some thread can never be joined (blocked inside tengo for good)
+	stuck   bool                 // some thread can never be joined (blocked inside tengo for good)
 	pending []logEntry
 	nViol   int
-	late []lateItem
-	meta map[int]opMeta
+	late    []lateItem
+	meta    map[int]opMeta
 }
 
 type preCtxEntry struct {
@@ -821,6 +824,9 @@ func (e *Engine) onArrive(t *thread, a *arrival) {
 		e.logf("A %s %s ip=%d op=%d sp=%d fr=%d", t.name, SiteName(a.site), a.ip, a.op, a.sp, a.frames)
 	case SiteHostCall:
 		e.logf("A %s HostCall %s", t.name, a.name)
+	case SiteYield:
+		e.logf("A %s Yield %s", t.name, a.name)
+		e.probe("yieldInsideBuiltin")
 	case SiteOpEnd:
 		e.logf("A %s OpEnd %d", t.name, a.opIdx)
 	default:
@@ -854,7 +860,7 @@ func (e *Engine) onArrive(t *thread, a *arrival) {
 			cs.hasDL = true
 			cs.deadline = e.now - time.Second
 			e.probe("deadlinePast")
-		case "preCancelled", "childOfCancelled":
+		case "preCancelled", "childOfCancelled", "cancelledPastDeadline":
 			cs.cancelled = true
 			cs.fired = true
 			e.probe(cs.spec.Kind)
@@ -969,7 +975,7 @@ func (e *Engine) armStall(t *thread, site int) {
 // plan's instant is reached by the arriving thread.
 func (e *Engine) checkCancelTrigger(r *RunInfo, t *thread, a *arrival) {
 	cs := r.ctx
-	if cs == nil || !(cs.spec.Kind == "cancel" || cs.spec.Kind == "cancelCause" || cs.spec.Kind == "merged") || cs.fired || cs.pending {
+	if cs == nil || !(cs.spec.Kind == "cancel" || cs.spec.Kind == "cancelCause" || cs.spec.Kind == "merged" || cs.spec.Kind == "timeoutCancelled") || cs.fired || cs.pending {
 		return
 	}
 	sp := cs.spec
@@ -1103,7 +1109,7 @@ func (e *Engine) release(t *thread) {
 	if e.last != t {
 		e.Stats.Switches++
 		e.switchSig = mix64(e.switchSig ^ uint64(t.id+1)<<8 ^ uint64(a.site))
-		if e.last != nil && RaceBuild {
+		if e.last != nil && RaceBuild && !e.Plan.Cfg.PoolShare {
 			drainPools()
 		}
 		e.last = t
